@@ -51,7 +51,7 @@ def rule_spec(ctx) -> RuleResult:
     from ..h5den import Den
 
     igv = ctx.view(ig)
-    dn = Den(igv)
+    dn = Den(igv, ctx.p)
     got, got_t, has_project = set(), set(), False
     for c in ast.walk(igv.node):
         if isinstance(c, ast.Call) and isinstance(c.func, ast.Attribute) and c.func.attr in ("create_group", "require_group") and c.args:
@@ -188,7 +188,7 @@ def rule_link(ctx) -> RuleResult:
         if name.startswith("_") and not name.startswith("__") and called_somewhere(name) and not still_called(name):
             continue  # a private helper expanded into each of its callers: decided there, where its handles are known
         fn = views[name]
-        d = Den(fn)
+        d = Den(fn, ctx.p)
         for a in ast.walk(fn.node):
             if isinstance(a, ast.Assign) and len(a.targets) == 1 and isinstance(a.targets[0], ast.Subscript):
                 tp = d.paths(a.targets[0])
@@ -242,7 +242,7 @@ def rule_link(ctx) -> RuleResult:
         ("write_entity", "NODE", "<project>/<flat container>/<entity uid>", ""),
     ):
         fn = ctx.view(W.methods[mname])
-        d = Den(fn)
+        d = Den(fn, ctx.p)
         target = d.params[1] if len(d.params) > 1 else None
         for r in [x for x in ast.walk(fn.node) if isinstance(x, ast.Return) and x.value is not None and unparse(x.value) != "None"]:
             rp = d.paths(r.value)
@@ -344,7 +344,7 @@ def rule_reparent(ctx) -> RuleResult:
     from ..h5den import Den
 
     rc = ctx.view(p.func("H5Writer.remove_child"))
-    d = Den(rc)
+    d = Den(rc, ctx.p)
     prm = d.params  # (file, uid, ref_type, parent)
     ok5 = False
     for dl in ast.walk(rc.node):
@@ -394,9 +394,38 @@ def rule_pgmember(ctx) -> RuleResult:
         if isinstance(comp, ast.comprehension) and isinstance(comp.target, ast.Name):
             loop_vars.add(comp.target.id)
 
+    def converter_keeps_raw(call):
+        """F(x) for a package function F of one argument: does F hand back a Data element unconverted on some path?"""
+        f = call.func
+        target = None
+        if isinstance(f, ast.Name):
+            r = p.resolve_name(rp.module, f.id)
+            if r and r[0] == "func":
+                target = r[1]
+        elif isinstance(f, ast.Attribute) and isinstance(f.value, ast.Name) and f.value.id in ("self", "cls", "PropertyGroup"):
+            m = PG.lookup(f.attr)
+            if m and m[1] == "method":
+                target = m[2]
+        if target is None:
+            return True  # unknown function: assume it may return its argument
+        ps = target.params[1:] if target.kind in ("method", "classmethod") else target.params
+        if len(ps) != 1:
+            return True
+        g2 = CFG(target.node)
+        st_in = _forward(g2, frozenset({ps[0]}), transfer, join, bottom=BOT)
+        for n2 in g2.nodes:
+            if n2.kind == "return" and n2.ast is not None and st_in.get(n2, BOT) != BOT:
+                v = n2.ast.value if isinstance(n2.ast, ast.Return) else n2.ast
+                if v is not None and raw_of(v, set(st_in[n2])):
+                    return True
+        return False
+
     def raw_of(e, rawset):
         if isinstance(e, ast.Name):
             return e.id in rawset
+        if isinstance(e, ast.Call) and len(e.args) == 1 and not e.keywords and isinstance(e.func, (ast.Name, ast.Attribute)) \
+                and getattr(e.func, "id", getattr(e.func, "attr", "")) not in ("list", "tuple", "iter", "str"):
+            return raw_of(e.args[0], rawset) and converter_keeps_raw(e)
         if isinstance(e, ast.IfExp):
             vals = [_tv(e.test, v, {"Data": True}) for v in rawset]
             dec = next((v for v in vals if v is not None), None)
@@ -415,6 +444,11 @@ def rule_pgmember(ctx) -> RuleResult:
         a = node.ast
         cur = set(st)
         if node.kind == "fornext" and isinstance(a, ast.Name):
+            it = getattr(node.stmt, "iter", None)
+            if isinstance(it, ast.Call) and getattr(it.func, "id", None) == "map" and len(it.args) == 2:
+                probe = ast.Call(func=it.args[0], args=[ast.Name(id="<elem>", ctx=ast.Load())], keywords=[])
+                if not converter_keeps_raw(probe):
+                    return frozenset(cur - {a.id})  # every element went through a converter that strips Data objects
             return frozenset(cur | {a.id})  # the loop variable is bound to the next element (a Data object in the case analysed)
         if node.kind == "test" and a is not None:
             out = {"true": frozenset(cur), "false": frozenset(cur), None: frozenset(cur)}
